@@ -196,9 +196,9 @@ harnesses! {
     c13_fa_views_l1 => fa_views_l1;
     /// @meta props=C13 tier=quick kind=R timeout=1500 mem=12 unwind=12 bounds="FASTA record from parts: buffer <= 8 bytes, 1 sequence line"
     c13_fa_views_l2 => fa_views_l2;
-    /// @meta props=C13 tier=quick kind=R timeout=1500 mem=12 unwind=12 bounds="FASTA record from parts: buffer <= 8 bytes, 2 sequence lines"
+    /// @meta props=C13:t tier=quick kind=R timeout=1500 mem=12 unwind=12 bounds="FASTA record from parts: buffer <= 8 bytes, 2 sequence lines"
     c13_fa_views_l3 => fa_views_l3;
-    /// @meta props=C13 tier=quick kind=R timeout=1500 mem=12 unwind=12 bounds="id()/desc()/id_desc() on every header of <= 3 arbitrary bytes (multi-byte UTF-8 prefixes included)"
+    /// @meta props=C13:t tier=quick kind=R timeout=1500 mem=12 unwind=12 bounds="id()/desc()/id_desc() on every header of <= 3 arbitrary bytes (multi-byte UTF-8 prefixes included)"
     c13_fa_text => fa_text;
     /// @meta props=C13 tier=quick kind=R timeout=1500 mem=12 unwind=12 bounds="FASTQ record from parts under the record invariant: buffer <= 10 symbolic bytes, valid record; RefRecord, OwnedRecord"
     c13_fq_views => fq_views;
